@@ -21,10 +21,10 @@ const (
 )
 
 type token struct {
-	kind tokKind
 	text string
 	val  uint32
 	line int
+	kind tokKind
 }
 
 func malformed(line int, f string, a ...any) *xrt.Malformed {
@@ -42,7 +42,7 @@ type directive struct {
 
 // lex tokenises src. Preprocessor lines are collected separately and otherwise ignored.
 func lex(src string) ([]token, []directive, error) {
-	toks := make([]token, 0, len(src)/3)
+	toks := make([]token, 0, len(src)/5+16)
 	var dirs []directive
 	line := 1
 	i := 0
